@@ -21,7 +21,8 @@ VARIABLES i,      \* next line to consume
           bad     \* runs with at least one failed check
 
 CfgOf(e) == [cancelable |-> e.cfg.cancelable, enabled |-> e.cfg.enabled, ready |-> e.cfg.ready,
-             queue |-> e.cfg.queue, stack |-> e.cfg.stack, foreign |-> A!Rng(e.cfg.foreign)]
+             queue |-> e.cfg.queue, stack |-> e.cfg.stack, foreign |-> A!Rng(e.cfg.foreign),
+             tolm |-> 60, tolw |-> 3000]
 
 \* consume lines from j until the next reset; returns <<abstract state, next line>>
 RECURSIVE Consume(_, _)
